@@ -135,7 +135,7 @@ class RefCoapAccessory:
         if iid not in CHARS:
             return 4, b""
         if op == 0x03:
-            st = self.read_status.get(iid, 0)
+            st = self.read_status.get(iid, 0) or (0 if CHARS[iid][3] & 0x10 else 6)      # no read permission: Invalid Request
             return (st, b"") if st else (0, tlv_enc([(1, self.values[iid])]))
         if op == 0x02:
             st = self.write_status.get(iid, 0)
